@@ -55,6 +55,12 @@ func checkC08(c *Ctx) {
 	c.Rule("C08-R10", "changing a wide rune dirties every column it covered whatever the base cell's own marker says: the neighbour-dirtying sites of SetContent and Fill are not control-dependent on lastMain")
 	c.Expect("C08-R10", 1)
 	checkWideDirtyIndependentOfMarker(c, p, "C08-R10")
+	c.Rule("C08-R11", "GetContent returns what SetContent last stored: currMain receives the rune parameter and currComb a copy of the list parameter, for every in-range cell (decided by the range test alone, not by what the cell held or by its cached width)")
+	c.Expect("C08-R11", 2)
+	checkSetContentStoresWhatItIsGiven(c, p, "C08-R11")
+	c.Rule("C08-R12", "Resize preserves the overlapping region, locks included: the cells that survive carry their lock flag into the new array (a surviving cell that comes out unlocked reports dirty although nothing was unlocked; = C13-R6)")
+	c.Expect("C08-R12", 2)
+	c.asRule("C13-R6", "C08-R12", func() { c13LockOwnership(c, p) })
 	ms := cbMethods(p)
 	for _, need := range []string{"SetContent", "GetContent", "Dirty", "SetDirty", "Invalidate", "Resize", "Fill", "LockCell", "UnlockCell"} {
 		if ms[need] == nil {
